@@ -909,21 +909,7 @@ fn fetch_pos(m: ZXMachine, tau: isize) -> (bool, usize, usize) {
     (true, l as usize, (x / 8) as usize)
 }
 
-// @harness
-// @prop C07
-// @tier quick
-// @timeout 1200
-// @fn ZXController::read_io; ZXController::floating_bus_value; KempstonJoy::read; TapeImpl::current_bit; bitmap_line_addr; ZXMemory::read
-// @sym machine, latch, frame time, 16-bit port, device configuration as in c07_write_reaches_one_device, keyboard/extended/sinclair matrices (bits 5-7 set), one witness byte in display memory (bitmap or attribute, position from a class of 5)
-// @assert for every port selecting at most one device: extender ports return the extender's byte (read once); even ports return the AND of the half-rows selected by zero bits of A8-A15 over the three key sources, bit 6 = EAR, bits 5,7 = 1; Kempston port returns the joystick byte; mouse ports return buttons/X/Y; a port no device claims returns 0xFF when the whole cycle lies outside the picture fetch windows (+-4 T), otherwise 0xFF or a byte of display/attribute memory of the cells fetched during the cycle (+-4 T); reads change no device state
-// @assume at most one device selected; AY ports are excluded in this build (no AY compiled in; see c07_ay_ports); (A8,A10)=(0,1) mouse-style addresses are excluded (statement names only the FADF/FBDF/FFDF forms); tape deck empty (EAR low) or loaded with an arbitrary EAR level
-// @bound one port read per query
-// @stub ZXScreen::process_clocks -> no-op
-// @replay solver-only
-#[kani::proof]
-#[kani::unwind(10)]
-#[kani::stub(crate::zx::video::screen::ZXScreen::process_clocks, noop_screen_clocks)]
-fn c07_read_comes_from_one_device() {
+fn read_decode_body(with_tape: bool) {
     let kemp: bool = kani::any();
     let mouse: bool = kani::any();
     let (mut c, latch, t) = any_controller_at(kemp, mouse);
@@ -960,7 +946,7 @@ fn c07_read_comes_from_one_device() {
     };
     // tape deck: empty, or a loaded (stopped) tape with an arbitrary EAR level
     let ear: bool = kani::any();
-    if kani::any() {
+    if with_tape {
         c.tape = crate::zx::tape::verif_hooks_tap::stopped_tape_with_level(ear).into();
     } else {
         kani::assume(!ear);
@@ -1026,11 +1012,47 @@ fn c07_read_comes_from_one_device() {
         kani::cover!(same_gap && t > 20000, "idle bus inside the picture area (right border / retrace)");
     }
     kani::cover!(sel.ula && got & 0x1F != 0x1F, "key held on a selected row");
-    kani::cover!(sel.ula && !sel.ext && got & 0x40 != 0, "EAR high on bit 6");
+    kani::cover!(!with_tape || (sel.ula && !sel.ext && got & 0x40 != 0), "EAR high on bit 6");
     kani::cover!(sel.kemp, "kempston read");
     kani::cover!(sel.mouse_y, "mouse Y read");
     kani::cover!(sel.ext && port & 1 == 0, "extender answers an even port it claims");
     kani::cover!(sel.page && !sel.ext, "read from the paging port floats");
+}
+
+// @harness
+// @prop C07 C17
+// @tier quick
+// @timeout 1200
+// @fn ZXController::read_io; ZXController::floating_bus_value; KempstonJoy::read; TapeImpl::current_bit; bitmap_line_addr; ZXMemory::read
+// @sym machine, latch, frame time, 16-bit port, device configuration as in c07_write_reaches_one_device, keyboard/extended/sinclair matrices (bits 5-7 set), one witness byte in display memory (bitmap or attribute, position from a class of 5)
+// @assert for every port selecting at most one device: extender ports return the extender's byte (read once); even ports return the AND of the half-rows selected by zero bits of A8-A15 over the three key sources, bit 6 = EAR, bits 5,7 = 1; Kempston port returns the joystick byte; mouse ports return buttons/X/Y; a port no device claims returns 0xFF when the whole cycle lies outside the picture fetch windows (+-4 T), otherwise 0xFF or a byte of display/attribute memory of the cells fetched during the cycle (+-4 T); reads change no device state
+// @assume at most one device selected; AY ports are excluded in this build (no AY compiled in; see c07_ay_ports); (A8,A10)=(0,1) mouse-style addresses are excluded (statement names only the FADF/FBDF/FFDF forms); tape deck empty (EAR low)
+// @bound one port read per query
+// @stub ZXScreen::process_clocks -> no-op
+// @replay solver-only
+#[kani::proof]
+#[kani::unwind(10)]
+#[kani::stub(crate::zx::video::screen::ZXScreen::process_clocks, noop_screen_clocks)]
+fn c07_read_comes_from_one_device() {
+    read_decode_body(false);
+}
+
+// @harness
+// @prop C07
+// @tier quick
+// @timeout 1200
+// @fn ZXController::read_io; ZXController::floating_bus_value; KempstonJoy::read; TapeImpl::current_bit; bitmap_line_addr; ZXMemory::read
+// @sym machine, latch, frame time, 16-bit port, device configuration as in c07_write_reaches_one_device, keyboard/extended/sinclair matrices (bits 5-7 set), one witness byte in display memory (bitmap or attribute, position from a class of 5)
+// @assert for every port selecting at most one device: extender ports return the extender's byte (read once); even ports return the AND of the half-rows selected by zero bits of A8-A15 over the three key sources, bit 6 = EAR, bits 5,7 = 1; Kempston port returns the joystick byte; mouse ports return buttons/X/Y; a port no device claims returns 0xFF when the whole cycle lies outside the picture fetch windows (+-4 T), otherwise 0xFF or a byte of display/attribute memory of the cells fetched during the cycle (+-4 T); reads change no device state
+// @assume at most one device selected; AY ports are excluded in this build (no AY compiled in; see c07_ay_ports); (A8,A10)=(0,1) mouse-style addresses are excluded (statement names only the FADF/FBDF/FFDF forms); a tape is loaded (stopped) with an arbitrary EAR level
+// @bound one port read per query
+// @stub ZXScreen::process_clocks -> no-op
+// @replay solver-only
+#[kani::proof]
+#[kani::unwind(10)]
+#[kani::stub(crate::zx::video::screen::ZXScreen::process_clocks, noop_screen_clocks)]
+fn c07_read_with_tape_loaded() {
+    read_decode_body(true);
 }
 
 // =============================================================================================
